@@ -142,6 +142,7 @@ void builder_side(sim::RunCtx& ctx) {
 }
 
 void run_c17(sim::RunCtx& ctx) {
+    gen::g_row_cap = 0;
     common::apply_benign_knobs();
     if (sim::draw(6) == 5) builder_side(ctx); else reader_side(ctx);
 }
